@@ -44,7 +44,7 @@
 //
 //	db := pq.GenDB(t, pq.DBOpts{U: U, Shape: "", FullLabels: false})
 //	                               series = metric + label subset, sample values from {0,1,2,3} on a 1-minute grid
-//	                               from T-12m to T+3m (T = pq.T0); shapes: dense / sparse / single / shared
+//	                               from T-12m to T+3m (T = pq.T0); shapes: dense / sparse / single / shared / one
 //	db.Queryable()                 storage.Queryable over it (Select filters by matchers, storage.NewListSeries)
 //	DB is plain data and JSON-serialisable, so a failing case = expression text + DB.
 //
